@@ -60,6 +60,7 @@ LegalPick(e) == LET p == Pick(e) IN
 
 SpecStep(e) ==
     CASE e.ev = "Register"  -> Register(e.a.a, e.a.rev, e.a.st, e.a.sf, e.a.af, LegalPick(e))
+      [] e.ev = "RegisterQuorum" -> RegisterQuorum
       [] e.ev = "Start"     -> Start(e.a.a, e.a.cf)
       [] e.ev = "AddCheck"  -> AddCheck(e.a.a, TK(e.a.a))
       [] e.ev = "Add"       -> AddCheck(e.a.a, TK(e.a.a))
@@ -91,6 +92,7 @@ SpecStep(e) ==
                 s   == IF all \/ Readers = {} THEN "" ELSE IF s0 \in okS THEN s0 ELSE CHOOSE x \in okS : TRUE
             IN Read(A, T, s, IF e.a.mode \in {"stall", "drop"} THEN T ELSE {})
       [] e.ev = "Snapshot"  -> Snapshot(e.a.name, SeqSet(e.a.S))
+      [] e.ev = "Resize"    -> ResizeVol(SeqSet(e.a.F))
       [] e.ev = "PresetRev" -> PresetRev(e.a.a, e.a.rev)
       [] e.ev = "ReplicaRestart" ->
             IF cmode[e.a.a] = "NONE" THEN ReplicaRestart(e.a.a)
@@ -207,6 +209,7 @@ Rules(e) ==
              (\/ (sig = <<>>) # (Len(StartSignals(e)) = 0)
               \/ (sig # <<>> /\ Len(StartSignals(e)) > 0 /\ StartSignals(e)[Len(StartSignals(e))].to # sig[1].to))
           THEN {"Signals"} ELSE {})
+    \cup (IF e.ev = "RegisterQuorum" /\ Len(StartSignals(e)) > 0 THEN {"Signals"} ELSE {})
     \cup (IF e.ev = "Register" /\ sig # <<>> /\ sig[1].nreg < Quorum THEN {"SignalAfterMajority"} ELSE {})
     \cup (IF e.ev = "Register" /\ sig # <<>> /\ sig[1].torev # sig[1].best THEN {"SignalsMax"} ELSE {})
     \* data path observables
@@ -223,6 +226,13 @@ Rules(e) ==
     \cup (IF \E a \in Addr : nd[a].snaps # rsnaps[a] THEN {"Node.snaps"} ELSE {})
     \cup (IF \E a \in Addr : nd[a].cp # rcp[a] THEN {"Node.cp"} ELSE {})
     \cup (IF \E a \in Addr : SeqSet(nd[a].log) # rlog[a] THEN {"Node.log"} ELSE {})
+    \* volume size: every replica in service has the same size; after a successful grow, the new one
+    \* (replicas not in service are provisioned by the harness and not judged)
+    \cup (IF \E a, b \in Addr : cmode[a] \in {"RW", "WO"} /\ cmode[b] \in {"RW", "WO"} /\ nd[a].size # nd[b].size
+          THEN {"SizesAgree"} ELSE {})
+    \cup (IF e.ev = "Resize" /\ e.res = "ok" /\ res = "ok" /\
+             \E a \in Addr : cmode[a] \in {"RW", "WO"} /\ nd[a].size # e.a.nb
+          THEN {"SizesAgree"} ELSE {})
     \* the properties, on this step
     \cup (IF readOnly # (Cardinality(RWs(cmode)) < Quorum) THEN {"RoFresh"} ELSE {})
     \cup (IF rwCount # Cardinality(RWs(cmode)) THEN {"CountMatches"} ELSE {})
@@ -235,6 +245,8 @@ Rules(e) ==
           THEN {"ReadFresh"} ELSE {})
     \cup (IF e.ev = "Read" /\ e.res = "ok" /\ res = "ok" /\ e.served \in Addr /\ e.served # served
           THEN {"ServedBy"} ELSE {})
+    \* a read is either served completely or reported as failed (never "no error, no data")
+    \cup (IF e.ev = "Read" /\ "shortnil" \in DOMAIN e /\ e.shortnil THEN {"ShortSuccess"} ELSE {})
     \cup (IF e.ev \in {"Write", "Sync", "Unmap"} /\ touched # {} /\
              (prev.readOnly \/ Cardinality(RWs(prev.cmode)) < Quorum)
           THEN {"WriteGate"} ELSE {})
